@@ -39,7 +39,11 @@ func eachFuncBody(pk *packages.Package, visit func(name string, fd *ast.FuncDecl
 			if !ok || fd.Body == nil {
 				continue
 			}
-			visit(recvTypeName(fd)+"."+fd.Name.Name, fd, fd.Body)
+			nm := fd.Name.Name
+			if fn, ok := pk.TypesInfo.Defs[fd.Name].(*types.Func); ok {
+				nm = refName(fn) // keys survive a rename of the function
+			}
+			visit(recvTypeName(fd)+"."+nm, fd, fd.Body)
 		}
 	}
 }
@@ -1260,11 +1264,11 @@ func c16JudgeAtCallers(c *Check, pk *packages.Package, body *ast.BlockStmt, prm 
 			sites++
 			cv := c16Evaluator(c.P, inf)(call.Args[pidx], nil)
 			if cv.K != absConst {
-				ok, msg = false, "the basic code handed to "+fi.Obj.Name()+" at line "+itoa(c.P.Fset.Position(call.Pos()).Line)+" is not a constant"
+				ok, msg = false, "the basic code handed to "+refName(fi.Obj)+" at line "+itoa(c.P.Fset.Position(call.Pos()).Line)+" is not a constant"
 				continue
 			}
 			if o, m := c16Judge(cv, ench); !o {
-				ok, msg = false, m+" (code passed to "+fi.Obj.Name()+" at line "+itoa(c.P.Fset.Position(call.Pos()).Line)+")"
+				ok, msg = false, m+" (code passed to "+refName(fi.Obj)+" at line "+itoa(c.P.Fset.Position(call.Pos()).Line)+")"
 			}
 		}
 	})
